@@ -23,7 +23,9 @@ Complement(n, idx) == SelectSeq([i \in 1..n |-> i - 1], LAMBDA j : j \notin Rang
 
 RunOK(r) ==
     LET n == Len(r.data)
-        T == TestCount(n, r.ts, r.ordered)
+        \* the split arithmetic is exact (and specified) for dyadic test sizes; for the others the number of test rows
+        \* is whatever the floating-point computation gives and only the laws that do not depend on it are checked
+        T == IF r.exact THEN TestCount(n, r.ts, r.ordered) ELSE Len(r.test_indices)
         testRows == RowsAt(r.data, r.test_indices)
         trainRows == RowsAt(r.data, Complement(n, r.test_indices))
     IN
